@@ -213,7 +213,6 @@ func (b *backendConfigSessionHandler) handlePluginMessage(pc *proto.PacketContex
 		_ = b.serverConn.player.WritePacket(plugin.RewriteMinecraftBrand(p,
 			b.serverConn.player.Protocol()))
 	} else {
-		bytes := pc.Payload
 		id, ok := b.proxy().ChannelRegistrar().FromID(p.Channel)
 		if !ok {
 			b.forwardToPlayer(pc, nil)
@@ -227,10 +226,10 @@ func (b *backendConfigSessionHandler) handlePluginMessage(pc *proto.PacketContex
 			source:     b.serverConn,
 			target:     b.serverConn.player,
 			identifier: id,
-			data:       bytes,
+			data:       p.Data, // the message body, not the raw packet
 		}, func(pme *PluginMessageEvent) {
 			if pme.Allowed() && b.serverConn.active() {
-				b.forwardToPlayer(pc, &plugin.Message{
+				b.forwardToPlayer(nil, &plugin.Message{
 					Channel: p.Channel,
 					Data:    pme.Data(),
 				})
